@@ -131,6 +131,16 @@ def table_twins(ctx, res, c):
             c2.repeated = 7
             if table_digest(a) != d0:
                 res.violation("cell:editing-the-clone-changed-the-table", {"at": [x, y]}, witness)
+            # reads that hand out copies leave the live cell the caller holds as it is, position included
+            pos0 = (cl.x, cl.y, cl.serialize())
+            for x2 in sorted({0, x, max(x - 1, 0), min(x + 1, len(ga.rows[y]) - 1), len(ga.rows[y]) - 1}):
+                r.get_cell(x2)
+                a.get_cell((x2, y))
+                a.get_value((x2, y))
+            res.judge()
+            res.cls(("Cell", "repeated" if (cl.repeated or 1) > 1 else "plain", "held-live-cell-after-copying-reads"), True)
+            if (cl.x, cl.y, cl.serialize()) != pos0:
+                res.violation("cell:copying-reads-changed-the-live-cell-held-by-the-caller", {"at": [x, y], "before": list(pos0[:2]), "after": [cl.x, cl.y]}, witness)
     # objects handed to a setter that stores a copy (clone=True is the default): afterwards the caller's object and
     # the table lead separate lives
     from odfdo import Cell as _Cell
@@ -445,11 +455,25 @@ def doc_twins(ctx, res, c):
         for step in range(rng.randint(1, 4)):
             which = rng.choice("AB")
             t, m, other, mo = (a, ma, b, mb) if which == "A" else (b, mb, a, ma)
-            op = {"op": rng.choice(DOC_OPS), "k": rng.randrange(10**6)}
+            op = {"op": rng.choice(DOC_OPS + ["merge_from_the_other_twin"]), "k": rng.randrange(10**6)}
             ops.append([which, op])
+            # parsed before the snapshot: parsing a part is not a change, the operation below reads every part of the other twin
+            if op["op"] == "merge_from_the_other_twin":
+                other.body, other.styles, other.meta, other.manifest
             od = DL.expected_state(other, mo)
             try:
-                tag = DL.apply_edit(t, op, m, tmp)
+                if op["op"] == "merge_from_the_other_twin":
+                    # one twin takes the styles of the other: the giver is an argument, not a target
+                    if "content.xml" in m.frozen or "styles.xml" in m.frozen:
+                        tag = "skipped"  # a raw set_part of this history stands for these parts (see doclab.EditModel)
+                    else:
+                        try:
+                            t.merge_styles_from(other)
+                            tag = "merge_from_the_other_twin"
+                        except ValueError:
+                            tag = "skipped"  # the giver refers to a picture this history deleted: nothing to judge
+                else:
+                    tag = DL.apply_edit(t, op, m, tmp)
             except Exception as e:
                 res.violation(f"document:operation-on-a-twin-raised:{op['op']}:{type(e).__name__}", {"exc": repr(e), "which": which, "pre": pre}, {"case": case, "ops": ops})
                 return
